@@ -1417,3 +1417,193 @@ Proof.
   apply ren_noeol_id; [exact Wn|]. unfold off_ok, slen. rewrite app_length. unfold nb. rewrite !app_length, firstn_length, skipn_length.
   cbn [length]. lia.
 Qed.
+
+(* ====================================================================================== *)
+(* the state invariant: valid UTF-8, well-formed lines, cursor on an existing character     *)
+(* ====================================================================================== *)
+(* a line that ends with its only newline character (whatever the bytes after the 0x0A of that character) *)
+Fixpoint termd (l : line) : bool :=
+  match l with
+  | [] => false
+  | c :: r => match r with [] => is_nlb c | _ => negb (is_nlb c) && termd r end
+  end.
+Definition buf_termd (b : buf) : Prop := Forall (fun l => termd l = true) b.
+
+Lemma valid_nl_exact c : chr_valid c -> b0 c = 10%N -> c = [10%N].
+Proof.
+  intros (k & Hk & ->) H. unfold encode in *. destruct (N.ltb_spec k 128); [unfold b0, hd0 in H; subst; reflexivity|].
+  destruct (N.ltb_spec k 2048); [|destruct (N.ltb_spec k 65536)]; unfold b0, hd0 in H; lia.
+Qed.
+Lemma termd_wf l : termd l = true -> line_valid l -> line_wf l.
+Proof.
+  induction l as [|c r IH]; intros T V; [discriminate|]. cbn [termd] in T. inversion V; subst.
+  destruct r as [|c2 r'].
+  - unfold is_nlb in T. apply N.eqb_eq in T. rewrite (valid_nl_exact c ltac:(assumption) T). exists []. split; [reflexivity|constructor].
+  - apply andb_true_iff in T. destruct T as [T1 T2]. destruct (IH T2 ltac:(assumption)) as (body & E & Hb).
+    exists (c :: body). split; [rewrite E; reflexivity|]. constructor; [|exact Hb].
+    unfold is_nlb in T1. apply negb_true_iff, N.eqb_neq in T1. exact T1.
+Qed.
+Lemma termd_cons c r : r <> [] -> termd (c :: r) = negb (is_nlb c) && termd r.
+Proof. destruct r; [contradiction|reflexivity]. Qed.
+Lemma wf_termd l : line_wf l -> termd l = true.
+Proof.
+  intros (body & -> & Hb). induction Hb as [|c body Hc _ IH]; [reflexivity|].
+  cbn [app]. rewrite termd_cons by (destruct body; discriminate). rewrite IH.
+  unfold is_nlb. apply N.eqb_neq in Hc. rewrite Hc. reflexivity.
+Qed.
+Lemma split_text_termd t : buf_termd (split_text t).
+Proof.
+  unfold buf_termd. induction t as [|c r IH]; cbn [split_text]; [constructor|].
+  destruct (is_nlb c) eqn:Ec.
+  - constructor; [cbn [termd]; exact Ec|exact IH].
+  - destruct (split_text r) as [|l ls]; [repeat constructor; cbn [termd]; rewrite Ec; reflexivity|].
+    inversion IH; subst. constructor; [|assumption]. cbn [termd]. destruct l; [discriminate|]. rewrite Ec. cbn [negb andb]. assumption.
+Qed.
+Lemma set_row_termd b r ls n : buf_termd b -> buf_termd ls -> buf_termd (set_row b r ls n).
+Proof.
+  intros Hb Hl. unfold set_row, buf_termd in *. apply Forall_app. split; [apply Forall_firstn', Hb|].
+  apply Forall_app. split; [exact Hl|apply Forall_skipn', Hb].
+Qed.
+Lemma lbuf_edit_termd b t beg en : buf_termd b -> buf_termd (lbuf_edit b t beg en).
+Proof.
+  intro Hb. unfold lbuf_edit. destruct t as [t|].
+  - apply set_row_termd; [exact Hb|apply split_text_termd].
+  - destruct (_ =? _); [exact Hb|apply set_row_termd; [exact Hb|constructor]].
+Qed.
+Lemma shift_rows_termd right n : forall i b, buf_termd b -> buf_termd (shift_rows right n i b).
+Proof.
+  induction n as [|n IH]; intros i b Hb; cbn [shift_rows]; [exact Hb|]. apply IH.
+  destruct (getl b i); [apply lbuf_edit_termd, Hb|exact Hb].
+Qed.
+Lemma termd_valid_wf b : buf_termd b -> buf_valid b -> buf_wf b.
+Proof.
+  unfold buf_termd, buf_valid, buf_wf. intros T V. induction T as [|l b Hl _ IH]; [constructor|].
+  inversion V; subst. constructor; [apply termd_wf; assumption|apply IH; assumption].
+Qed.
+Lemma wf_buf_termd b : buf_wf b -> buf_termd b.
+Proof. unfold buf_wf, buf_termd. intro H. eapply Forall_impl; [|exact H]. intros l Hl. apply wf_termd, Hl. Qed.
+
+(* every command ends with finish; its buffer and the offset handed to vi_wfix *)
+Lemma finish_cursor rows b R s md : buf_wf b -> 0 <= v_off s ->
+  cursor_ok (s_buf (finish rows b R s md)) (v_row (s_vs (finish rows b R s md))) (v_off (s_vs (finish rows b R s md))).
+Proof.
+  intros HW Ho. unfold finish. destruct md; cbn [s_buf s_vs vs_col v_row v_off]; apply vi_wfix_ok; assumption.
+Qed.
+
+
+(* the offsets of a region are not negative *)
+Lemma region_offs_nonneg b k r1 o1 r2 o2 : 0 <= o1 -> (0 <= o2 \/ o2 = -1) ->
+  0 <= g_o1 (vc_region b k r1 o1 r2 o2) /\ 0 <= g_o2 (vc_region b k r1 o1 r2 o2).
+Proof.
+  intros H1 H2. unfold vc_region. cbn [g_o1 g_o2].
+  pose proof (lbuf_eol_nonneg b r2) as He.
+  set (ln := o2 <? 0). set (a := if ln then 0 else o1). set (z := if ln then lbuf_eol b r2 else o2).
+  assert (Ha : 0 <= a) by (unfold a; destruct ln; lia).
+  assert (Hz : 0 <= z) by (unfold z, ln; destruct (Z.ltb_spec o2 0); lia).
+  split.
+  - apply ren_noeol_nonneg. repeat match goal with |- context [if ?c then _ else _] => destruct c end; assumption.
+  - assert (G : forall x, 0 <= x -> forall ol, 0 <= ren_noeol ol x + 1) by (intros x Hx ol; pose proof (ren_noeol_nonneg ol x Hx); lia).
+    repeat match goal with |- context [if ?c then _ else _] => destruct c end; try assumption; apply G; assumption.
+Qed.
+
+Definition fin_shape (rows : Z) (e' : est) : Prop :=
+  exists b' R' st md, e' = finish rows b' R' st md /\ buf_termd b' /\ 0 <= v_off st.
+Lemma fin_intro rows b' R' st md : buf_termd b' -> 0 <= v_off st -> fin_shape rows (finish rows b' R' st md).
+Proof. intros. exists b', R', st, md. auto. Qed.
+
+Lemma vi_input_off R pref post typed : 0 <= snd (fst (vi_input R pref post typed)).
+Proof. unfold vi_input. destruct (led_input R pref post typed) as [[rep post'] nls]. cbn [fst snd]. lia. Qed.
+Lemma chop_nonnil s : s <> [] -> chop s <> [].
+Proof. destruct s as [|x s]; [contradiction|]. intros _. unfold chop. cbn [length chop_f]. discriminate. Qed.
+Lemma join_loop_off ls : forall first sb off, 0 <= off -> 0 <= snd (join_loop ls first sb off).
+Proof.
+  induction ls as [|l r IH]; intros first sb off H; cbn [join_loop snd]; [exact H|]. apply IH. unfold slen. lia.
+Qed.
+
+Lemma exec_op_shape rows e y a1 op a2 t typed e' : buf_termd (s_buf e) -> 0 <= v_off (s_vs e) ->
+  exec_op rows e y a1 op a2 t typed = Some e' -> fin_shape rows e'.
+Proof.
+  intros HT H0 X. unfold exec_op in X.
+  set (o1 := ren_noeol (getl (s_buf e) (v_row (s_vs e))) (v_off (s_vs e))) in *.
+  assert (Ho1 : 0 <= o1) by (apply ren_noeol_nonneg, H0).
+  destruct (op_target _ _ _ _ _ _ _) as [|cl cc|k r2 o2 cl cc pc] eqn:ET; [discriminate| |].
+  - inversion X; subst. apply fin_intro; [exact HT|exact H0].
+  - pose proof (op_target_off _ _ _ _ _ _ _ _ _ _ _ _ _ Ho1 ET) as Ho2.
+    change (v_row (vs_mot (s_vs e) cl cc pc)) with (v_row (s_vs e)) in X.
+    destruct (region_offs_nonneg (s_buf e) k (v_row (s_vs e)) o1 r2 o2 Ho1 Ho2) as [G1 G2].
+    set (g := vc_region (s_buf e) k (v_row (s_vs e)) o1 r2 o2) in *. clearbody g.
+    inversion X; subst e'. clear X. destruct op.
+    + (* d *) unfold vi_delete. destruct (g_ln g); apply fin_intro; try (apply lbuf_edit_termd, HT); cbn [vs_pos v_off];
+        [apply lbuf_indents_nonneg|exact G1].
+    + (* y *) apply fin_intro; [exact HT|]. cbn [vs_pos v_off vs_mot]. destruct (g_ln g); assumption.
+    + (* c *) unfold vi_change.
+      match goal with |- context [vi_input ?R ?p ?q typed] => pose proof (vi_input_off R p q typed) as V; destruct (vi_input R p q typed) as [[[rep row] off] nls] end.
+      cbn [fst snd] in V. apply fin_intro; [apply lbuf_edit_termd, HT|exact V].
+    + (* < *) unfold vi_shift. apply fin_intro; [apply shift_rows_termd, HT|apply lbuf_indents_nonneg].
+    + (* > *) unfold vi_shift. apply fin_intro; [apply shift_rows_termd, HT|apply lbuf_indents_nonneg].
+    + unfold vi_case. apply fin_intro; [destruct (g_ln g); apply lbuf_edit_termd, HT|]. cbn [vs_pos v_off]. destruct (g_ln g); [apply lbuf_indents_nonneg|exact G2].
+    + unfold vi_case. apply fin_intro; [destruct (g_ln g); apply lbuf_edit_termd, HT|]. cbn [vs_pos v_off]. destruct (g_ln g); [apply lbuf_indents_nonneg|exact G2].
+    + unfold vi_case. apply fin_intro; [destruct (g_ln g); apply lbuf_edit_termd, HT|]. cbn [vs_pos v_off]. destruct (g_ln g); [apply lbuf_indents_nonneg|exact G2].
+Qed.
+Lemma exec_put_shape rows e y a1 after : buf_termd (s_buf e) -> 0 <= v_off (s_vs e) -> fin_shape rows (exec_put rows e y a1 after).
+Proof.
+  intros HT H0. unfold exec_put. destruct (reg_get (s_regs e) y) as [[txt ln]|]; [|apply fin_intro; assumption].
+  destruct txt as [|c0 tl]; [apply fin_intro; assumption|]. set (txt := c0 :: tl).
+  assert (Hc : chop txt <> []) by (apply chop_nonnil; discriminate).
+  destruct ln; apply fin_intro.
+  - apply lbuf_edit_termd. destruct (_ =? 0); [apply lbuf_edit_termd, HT|exact HT].
+  - cbn [vs_pos v_off]. apply lbuf_indents_nonneg.
+  - apply lbuf_edit_termd, HT.
+  - cbn [vs_pos v_off].
+    match goal with |- context [ren_noeol ?ol ?x] => pose proof (ren_noeol_nonneg ol x H0) end.
+    assert (1 <= slen (chop txt)) by (unfold slen; destruct (chop txt); [contradiction|cbn [length]; lia]).
+    destruct (_ && after); nia.
+Qed.
+Lemma exec_join_shape rows e a1 : buf_termd (s_buf e) -> 0 <= v_off (s_vs e) -> fin_shape rows (exec_join rows e a1).
+Proof.
+  intros HT H0. unfold exec_join. destruct (getl _ _); [|apply fin_intro; assumption]. destruct (getl _ _); [|apply fin_intro; assumption].
+  match goal with |- context [join_loop ?ls true [] 0] => pose proof (join_loop_off ls true [] 0 ltac:(lia)) as J; destruct (join_loop ls true [] 0) as [sb off] end.
+  cbn [snd] in J. apply fin_intro; [apply lbuf_edit_termd, HT|exact J].
+Qed.
+Lemma exec_replace_shape rows e a1 cs : buf_termd (s_buf e) -> 0 <= v_off (s_vs e) -> fin_shape rows (exec_replace rows e a1 cs).
+Proof.
+  intros HT H0. unfold exec_replace. destruct (getl _ _) as [ln|]; [|apply fin_intro; assumption].
+  destruct (_ || _); [apply fin_intro; assumption|].
+  pose proof (ren_noeol_nonneg (Some ln) (v_off (s_vs e)) H0).
+  destruct (is_nlb cs); apply fin_intro; try (apply lbuf_edit_termd, HT); cbn [vs_pos v_off]; lia.
+Qed.
+Lemma exec_insert_shape rows e k typed : buf_termd (s_buf e) -> fin_shape rows (exec_insert rows e k typed).
+Proof.
+  intros HT. unfold exec_insert.
+  match goal with |- context [vi_input ?R ?p ?q typed] => pose proof (vi_input_off R p q typed) as V; destruct (vi_input R p q typed) as [[[rep row] off] nls] end.
+  cbn [fst snd] in V. destruct (nextlines rows nls _) as [xrow top']. apply fin_intro; [|exact V].
+  apply lbuf_edit_termd. destruct (_ && _); [apply lbuf_edit_termd, HT|exact HT].
+Qed.
+
+Lemma exec1_inv rows c e e' : est_inv e -> cmd_valid c -> exec1 rows c e = Some e' -> est_inv e'.
+Proof.
+  intros (HV & HW & HC) Hc X.
+  pose proof (exec1_valid rows c e e' HV Hc X) as HV'.
+  pose proof (cursor_ok_off _ _ _ HC) as H0. pose proof (wf_buf_termd _ HW) as HT.
+  assert (F : fin_shape rows e' -> est_inv e').
+  { intros (b' & R' & st & md & -> & T' & O'). split; [exact HV'|].
+    assert (W' : buf_wf b') by (apply termd_valid_wf; [exact T'|destruct HV' as [V' _]; exact V']).
+    split; [exact W'|apply finish_cursor; assumption]. }
+  destruct c; cbn [exec1] in X.
+  - inversion X; subst. split; [exact HV'|]. cbn [s_buf s_vs]. split; [exact HW|apply do_goto_ok; assumption].
+  - destruct (do_motion _ _ _ _ _ _) as [s'|] eqn:M; inversion X; subst. split; [exact HV'|]. cbn [s_buf s_vs]. split; [exact HW|].
+    eapply do_motion_ok; eassumption.
+  - apply F. eapply exec_op_shape; eassumption.
+  - inversion X; subst. apply F, exec_put_shape; assumption.
+  - inversion X; subst. apply F, exec_join_shape; assumption.
+  - inversion X; subst. apply F, exec_replace_shape; assumption.
+  - inversion X; subst. apply F, exec_insert_shape; assumption.
+Qed.
+Lemma exec_inv rows cs : forall e e', est_inv e -> Forall cmd_valid cs -> exec rows cs e = Some e' -> est_inv e'.
+Proof.
+  induction cs as [|c cs IH]; intros e e' He Hc X; cbn [exec] in X; [inversion X; subst; exact He|].
+  inversion Hc; subst. destruct (exec1 rows c e) as [e1|] eqn:E1; [|discriminate].
+  eapply IH; [eapply exec1_inv; eassumption|assumption|exact X].
+Qed.
+Lemma init_inv b : buf_wf b -> buf_valid b -> est_inv (init_est b).
+Proof. intros HW HV. split; [apply init_est_valid, HV|]. split; [exact HW|]. apply init_ok, HW. Qed.
